@@ -11,15 +11,15 @@ DEPENDS = {
     'C03': [('C19', ['as_list', '_wrapped', '_item_by'])],
     'C04': [('C19', ['as_list'])],
     'C05': [('C04', ['_ymd', 'dt'])],
-    'C06': [('C01', ['constructor', '__iter__', '__getitem__.mask', '__len__']), ('C19', LISTS)],
+    'C06': [('C01', ['constructor', 'dict_concat', '__iter__', '__getitem__.mask', '__len__']), ('C19', LISTS)],
     'C07': [('C19', ['as_list']), ('C01', ['__len__', '__getitem__.tuple', '__getitem__.column', 'constructor'])],
     'C08': [('C19', ['as_list'])],
     'C10': [('C04', ['dt']), ('C09', ['dt_bump'])],
-    'C11': [('C07', CMP), ('C01', ['__getitem__.tuple', '__getitem__.column', 'constructor', '__iter__', '__len__'])],
+    'C11': [('C07', CMP), ('C01', ['__getitem__.tuple', '__getitem__.column', 'constructor', 'dict_concat', '__iter__', '__len__'])],
     'C12': [('C19', ['as_list'])],
     'C13': [('C19', LISTS)],
     'C15': [('C14', ['axiom validation', 'eq', 'in_'])],
     'C16': [('C18', ['kwargs_support'])],
     'C17': [('C19', ['as_list'])],
-    'C20': [('C01', ['__add__', '__iter__', '__len__', 'constructor']), ('C02', ['_listby', 'join', 'xor']), ('C07', CMP + ['dictable.sort'])],
+    'C20': [('C19', ['as_list']), ('C01', ['__add__', '__iter__', '__len__', 'constructor', 'dict_concat']), ('C02', ['_listby', 'join', 'xor']), ('C07', CMP + ['dictable.sort'])],
 }
